@@ -146,6 +146,9 @@ static void COEmcySend(CO_EMCY *emcy, uint8_t err, CO_EMCY_USR *usr, uint8_t sta
     data = &emcy->Root[err];
 
     (void)CODictRdLong(dir, CO_DEV(0x1014,0), &frm.Identifier);
+    if ((frm.Identifier & CO_EMCY_COBID_OFF) != 0) {
+        return;
+    }
     frm.DLC = 8;
     if (state == 1) {
         frm.Data[0] = (uint8_t)(data->Code);
